@@ -32,6 +32,14 @@ Cooperator's task list / iterator-over-list / pause counter is modelled.  Checke
                      tasks (N = the largest number of simultaneously runnable tasks during the wait), or
                      is still unfinished/runnable after a generous number of drain ticks
 
+Only the first violation of a case is reported.  The failure text is "<tag>: <what> [ctx ...] [trace ...]":
+ctx names the noteworthy situations the history went through before the violation (resume-on-waiting =
+resume() of a live task that the application had not paused and that waits on its Deferred;
+fire-err-after-finished / fire-ok-after-finished = the Deferred of an already finished task fired;
+resume-on-finished; prefired-deferred = a task yielded an already fired Deferred; in-tick-op = an iterator
+paused/resumed/stopped a task from inside next()), trace is the sequence of operations and next() calls
+(nI = next() on task I, (XI) = operation from inside next()).
+
 Deliberately *not* demanded (the statement does not say it): which task runs first, exact round-robin
 order, how many units a tick performs, what resume() does on a finished task or on a task that is only
 waiting on a Deferred (any of: nothing, NotPaused, the TaskFinished subtype is accepted there; the model
@@ -161,7 +169,6 @@ class _World:
         self.k = k
         self.sched = _Sched()
         self.units = 0
-        self.in_tick = False
         self.violation = None
         self.trace = []
         self.factor = factor
@@ -313,9 +320,7 @@ class _World:
                 return False
             c = self.sched.pending.pop(0)
             c.called = True
-            self.in_tick = True
             exc = self._try(c.f)
-            self.in_tick = False
             self._expect("tick", exc, (None,))
             return True
         t = self.tasks[i]
@@ -446,9 +451,14 @@ def _parse_op(op):
     return (op[0], int(op[1:]) if len(op) > 1 else -1)
 
 
-def run_case(case, factor=STARVE_FACTOR, slack=STARVE_SLACK, want_world=False):
-    k, tasks, ops = case
-    w = _World(k, tasks, factor, slack)
+def run_case(case, lenient=False, factor=STARVE_FACTOR, slack=STARVE_SLACK, want_world=False):
+    """Run one case (k, tasks, ops[, "polite"|"any"]) on the real Cooperator; return the first violation or None.
+
+    An operation that does not apply (tick with nothing scheduled, firing a Deferred that is not outstanding,
+    an operation on a task that has no handle / is not created yet, or one that a polite history drops)
+    makes the case non-canonical: it is skipped, or with lenient=True the operation is just dropped."""
+    k, tasks, ops = case[:3]
+    w = _World(k, tasks, factor, slack, polite=len(case) > 3 and case[3] == "polite")
     try:
         explicit = {int(o[1:]) for o in ops if o[0] == "C"}
         for t in w.tasks:
@@ -459,11 +469,13 @@ def run_case(case, factor=STARVE_FACTOR, slack=STARVE_SLACK, want_world=False):
             if w.violation:
                 break
             o, i = _parse_op(op)
-            if i >= len(w.tasks):
+            if i < len(w.tasks) and w.do_op(o, i):
+                w.quiescent()
+            elif lenient:
+                if i < len(w.tasks):
+                    w.trace.pop()
+            else:
                 raise Bounded.Skip()
-            if not w.do_op(o, i):
-                raise Bounded.Skip()
-            w.quiescent()
         # drain: every task that stays runnable must get to its end
         if not w.violation:
             remaining = sum(len(t.script) - t.pos for t in w.tasks if t.created)
@@ -707,42 +719,7 @@ class RandomHistories(_Base):
     def check(self, case):
         # random histories contain many inapplicable operations; instead of skipping the whole case,
         # drop them (the canonical history is what remains)
-        return run_case_lenient(case)
-
-
-def run_case_lenient(case):
-    """like run_case, but an inapplicable operation is ignored instead of skipping the case"""
-    k, tasks, ops = case[:3]
-    w = _World(k, tasks, polite=len(case) > 3 and case[3] == "polite")
-    try:
-        explicit = {int(o[1:]) for o in ops if o[0] == "C"}
-        for t in w.tasks:
-            if t.idx not in explicit:
-                w.create(t)
-        w.quiescent()
-        for op in ops:
-            if w.violation:
-                break
-            o, i = _parse_op(op)
-            if w.do_op(o, i):
-                w.quiescent()
-            else:
-                w.trace.pop()
-        if not w.violation:
-            remaining = sum(len(t.script) - t.pos for t in w.tasks if t.created)
-            cap = 2 * remaining + 4
-            n = 0
-            while not w.violation and any(t.runnable() for t in w.tasks):
-                if n >= cap:
-                    w.fail("starved", "after %d further ticks tasks %r are still runnable and unfinished"
-                           % (n, [t.idx for t in w.tasks if t.runnable()]))
-                    break
-                w.do_op("T", -1)
-                w.quiescent()
-                n += 1
-    finally:
-        w.cleanup()
-    return w.violation
+        return run_case(case, lenient=True)
 
 
 BOUNDED = [OneTaskHistories, TwoTaskInterleavings, RemovalDuringTick, RandomHistories]
